@@ -72,3 +72,45 @@ Section Nfkd.
   Variable nfkd : str -> str.
   Definition secure_filename (s : str) : str := secure_core (nfkd s).
 End Nfkd.
+
+(* ------------------------------------------------------------------ the static-file helpers *)
+
+Definition opt_list {A : Type} (o : option A) : list A := match o with Some x => [x] | None => [] end.
+
+(* get_directory_loader: the path handed to os.path.isfile; None models `return None, None`
+   before the file system is asked *)
+Definition dir_target (directory : str) (p : option str) : option str :=
+  match p with
+  | Some x => safe_join directory [x]
+  | None => Some directory
+  end.
+
+(* one iteration of `for search_path, loader in self.exports:` for a directory export: the
+   paths whose isfile test decides, in order (exact match first, then the prefix match with
+   the rest of the request path) *)
+Definition export_candidates (search_path directory path : str) : list str :=
+  (if sdm_exact search_path path then opt_list (dir_target directory None) else [])
+  ++ (let sp := if sdm_append_slash search_path then search_path ++ sdm_slash else search_path in
+      if sdm_prefix sp path
+      then opt_list (dir_target directory (Some (skipn (length sp) path)))
+      else []).
+
+Definition shared_candidates (exports : list (str * str)) (path : str) : list str :=
+  flat_map (fun e => export_candidates (fst e) (snd e) path) exports.
+
+Section FileSystem.
+  (* os.path.isfile: the file system is not modelled *)
+  Variable isfile : str -> bool.
+
+  (* utils.send_from_directory without _root_path: Some f = send_file f, None = NotFound *)
+  Definition send_from_directory (directory path : str) : option str :=
+    match safe_join directory [path] with
+    | None => None
+    | Some f => if isfile f then Some f else None
+    end.
+
+  (* SharedDataMiddleware.__call__ over directory exports: the file that is opened, or None
+     when the request falls through to the wrapped application *)
+  Definition shared_lookup (exports : list (str * str)) (path : str) : option str :=
+    find isfile (shared_candidates exports path).
+End FileSystem.
